@@ -164,8 +164,7 @@ async def run_target(target, proto, muts, seedsel):
     U.time = lambda: 70000
     try:
         c = make_client(ag, proto, sender=sender)
-        if target != "discovery":
-            await c.get(OID(oidstr(INST)))       # warm up (discovery, plug-in loading, key localisation)
+        await c.get(OID(oidstr(INST)))           # warm up (discovery, plug-in loading, key localisation) - keeps the memory measurement honest
         for m in muts:
             if target == "discovery":
                 c = make_client(ag, proto, sender=sender)        # a fresh client per case: its first exchange is the discovery
